@@ -64,6 +64,7 @@ func runC08(c *Ctx, r *Rng, sc c08Scenario, idx int) {
 	stopPeer := make(chan struct{})
 	var peerWG sync.WaitGroup
 	var sentDatagrams [][]byte // datagrams the peer sent, in order
+	peerRng := r.Fork() // the peer goroutine draws from its own generator
 	if sc.peer != "closed" {
 		peerWG.Add(1)
 		go func() {
@@ -94,7 +95,7 @@ func runC08(c *Ctx, r *Rng, sc c08Scenario, idx int) {
 				switch sc.peer {
 				case "garbage":
 					for k := 0; k < 5; k++ {
-						d := r.Bytes(1 + r.Intn(40))
+						d := peerRng.Bytes(1 + peerRng.Intn(40))
 						mu.Lock()
 						sentDatagrams = append(sentDatagrams, d)
 						mu.Unlock()
@@ -102,7 +103,7 @@ func runC08(c *Ctx, r *Rng, sc c08Scenario, idx int) {
 					}
 				case "late":
 					if cnt == sc.replyAt {
-						d := mkReply(r, "authentic", wireParsed, wire, sec, 1)
+						d := mkReply(peerRng, "authentic", wireParsed, wire, sec, 1)
 						mu.Lock()
 						sentDatagrams = append(sentDatagrams, d)
 						mu.Unlock()
@@ -128,10 +129,11 @@ func runC08(c *Ctx, r *Rng, sc c08Scenario, idx int) {
 	}
 	var cancelAt time.Time
 	if sc.cancel == "after-first" {
+		delay := time.Duration(5+r.Intn(30)) * time.Millisecond
 		go func() {
 			select {
 			case <-firstSeen:
-				time.Sleep(time.Duration(5+r.Intn(30)) * time.Millisecond)
+				time.Sleep(delay)
 			case <-time.After(2 * time.Second):
 			}
 			cancelAt = time.Now()
